@@ -319,6 +319,44 @@ func main() {
 			}
 			return ne >= 1, fmt.Sprintf("unbuffered channels, entries drained first: %d entries, %d errors, both closed", n, ne)
 		}},
+		{"C13-whitespace-line", func() (bool, string) {
+			out := fasta.Parse(strings.NewReader(">a\nAC\n  \nGT\n"))
+			return len(out) == 1 && out[0].Sequence == "ACGT", fmt.Sprintf("sequence %q want ACGT", out[0].Sequence)
+		}},
+		{"C08-nonascii-frame", func() (bool, string) {
+			t := parseTable(codon.GetCodonTable(11)).OptimizeTable("AA\u00e9ATGATG")
+			for _, aa := range t.AminoAcids {
+				for _, c := range aa.Codons {
+					if c.Triplet == "ATG" {
+						return c.Weight == 2, fmt.Sprintf("ATG counted %d times in AA\u00e9ATGATG, want 2", c.Weight)
+					}
+				}
+			}
+			return false, "no ATG"
+		}},
+		{"C01-location-forms", func() (bool, string) {
+			s := genbank.Parse([]byte(gbRecord("120", "     misc_feature    order(1..5,7..9)\n                     /note=\"x\"\n     gene            1..4\n                     /gene=\"g\"\n", "        1 acgtacgtac gtacgtacgt")))
+			return len(s.Features) == 2 && s.Features[0].GbkLocationString == "order(1..5,7..9)", fmt.Sprintf("%d features", len(s.Features))
+		}},
+		{"C14-trailing-semicolon", func() (bool, string) {
+			s := gff.Parse([]byte("##gff-version 3\n##sequence-region s 1 1\ns\t.\tg\t1\t1\t.\t+\t.\tID=a;\n##FASTA\n>s\nA\n"))
+			return len(s.Features) == 1 && s.Features[0].Attributes["ID"] == "a", fmt.Sprintf("%d features", len(s.Features))
+		}},
+		{"C14-crlf", func() (bool, string) {
+			s := gff.Parse([]byte("##gff-version 3\r\n##sequence-region s 1 1\r\ns\t.\tg\t1\t1\t.\t+\t.\tID=a\r\n##FASTA\r\n>s\r\nA\r\n"))
+			return len(s.Features) == 1 && s.Sequence == "A" && s.Meta.GffVersion == "3", fmt.Sprintf("%d features, sequence %q, version %q", len(s.Features), s.Sequence, s.Meta.GffVersion)
+		}},
+		{"C14-directive-before-region", func() (bool, string) {
+			s := gff.Parse([]byte("##gff-version 3\n##species x\n##sequence-region s 1 1\ns\t.\tg\t1\t1\t.\t+\t.\tID=a\n##FASTA\n>s\nA\n"))
+			return s.Meta.Name == "s" && s.Meta.RegionEnd == 1, fmt.Sprintf("region name %q end %d", s.Meta.Name, s.Meta.RegionEnd)
+		}},
+		{"C03-reference-number", func() (bool, string) {
+			var s poly.Sequence
+			s.Sequence = "acgtacgtac"
+			s.Meta.References = []poly.Reference{{Index: "7", Authors: "A", Range: "(bases 1 to 10)"}}
+			back := genbank.Parse(genbank.Build(s))
+			return back.Meta.References[0].Index == "7", fmt.Sprintf("index read back as %q want 7", back.Meta.References[0].Index)
+		}},
 	}
 	for _, p := range probes {
 		if only == "" || only == p.name {
@@ -332,4 +370,15 @@ func mustEnzyme() clone.Enzyme {
 	frs, _ := clone.CutWithEnzymeByName(clone.Part{"", false}, true, "BsaI")
 	_ = frs
 	return bsaI
+}
+
+// parseTable returns a deep copy of a codon table (the default tables share their slices).
+func parseTable(t codon.Table) codon.Table {
+	var c codon.Table
+	c.StartCodons = append([]string{}, t.StartCodons...)
+	c.StopCodons = append([]string{}, t.StopCodons...)
+	for _, aa := range t.AminoAcids {
+		c.AminoAcids = append(c.AminoAcids, codon.AminoAcid{Letter: aa.Letter, Codons: append([]codon.Codon{}, aa.Codons...)})
+	}
+	return c
 }
